@@ -906,7 +906,9 @@ def op_chart_fmt(run):
         ["has_legend", "legend", "has_title", "title_text", "style", "font", "cat_axis", "val_axis", "gridlines", "ticklabels", "plot", "dlabels", "series_fmt", "marker", "point", "point", "axis_title", "style_bad", "crosses", "series_dlabels", "title_format"]
     )
     if k == "has_legend":
-        ch.has_legend = r.random() < 0.6
+        ch.has_legend = v_ = r.random() < 0.6
+        if r.random() < 0.5:
+            ch.has_legend = v_  # a switch set to the value it already has: nothing may be added a second time
     elif k == "legend":
         ch.has_legend = True
         lg = ch.legend
@@ -915,7 +917,9 @@ def op_chart_fmt(run):
         lg.horz_offset = r.choice([0, 0.2, -0.5, 1.0])
         lg.font.size = Pt(r.choice([8, 10.5]))
     elif k == "has_title":
-        ch.has_title = r.random() < 0.6
+        ch.has_title = v_ = r.random() < 0.6
+        if r.random() < 0.5:
+            ch.has_title = v_
     elif k == "title_text":
         ch.chart_title.text_frame.text = gen.string(r, rnd_cls(run), allow_controls=True)
     elif k == "style":
@@ -931,8 +935,10 @@ def op_chart_fmt(run):
         except ValueError:
             raise Rejected()
         if k == "gridlines":
-            ax.has_major_gridlines = r.random() < 0.5
-            ax.has_minor_gridlines = r.random() < 0.5
+            ax.has_major_gridlines = v_ = r.random() < 0.5
+            ax.has_minor_gridlines = w_ = r.random() < 0.5
+            if r.random() < 0.5:
+                ax.has_major_gridlines, ax.has_minor_gridlines = v_, w_
             if ax.has_major_gridlines:
                 ax.major_gridlines.format.line.width = Pt(1)
         elif k == "ticklabels":
